@@ -82,6 +82,8 @@ type Cfg struct {
 	ZoneLessStore    bool     // the storer's timestamp columns keep no zone
 	ClockZone        int      // seconds east of UTC of the server process' local zone (what time.Now() carries)
 	ExpireSetupFirst bool     // expire.Setup is called before Authboss.Init (its event hooks run before the modules')
+	TwoFASetupFirst  bool     // the 2FA modules' Setup() is called before Authboss.Init (the README prescribes no order)
+	AccessLog        string   // "" none | "current" | "load": application middleware between LoadClientState and expire/remember that resolves the visitor through ab.CurrentUser / ab.LoadCurrentUser (an access log, a data injector) and ignores the outcome
 	PersistArbitrary bool     // the user type stores every key PutArbitrary hands it (only sensible with an explicit RegWhitelist)
 }
 
@@ -241,6 +243,7 @@ type World struct {
 	// function runs (typically another browser's whole request), then the call proceeds. YieldedAt
 	// lists the operations at which a plan entry actually fired.
 	Yield     map[int]func()
+	quiet     bool // backend calls made by the application's own middleware: not recorded, not faultable
 	YieldedAt []string
 	// HookMode arms the application's event listeners for the next request ("handled" | "error").
 	HookMode string
@@ -419,6 +422,32 @@ func New(cfg Cfg, salt string) (w *World, err error) {
 			return nil, err
 		}
 	}
+	setup2FA := func() error {
+		for _, k := range cfg.TwoFA {
+			switch k {
+			case "totp":
+				if err := (&totp2fa.TOTP{Authboss: ab}).Setup(); err != nil {
+					return err
+				}
+			case "sms":
+				if err := (&sms2fa.SMS{Authboss: ab, Sender: smsSender{w}}).Setup(); err != nil {
+					return err
+				}
+			}
+		}
+		if len(cfg.TwoFA) > 0 {
+			if err := (&twofactor.Recovery{Authboss: ab}).Setup(); err != nil {
+				return err
+			}
+		}
+		return nil
+	}
+	if cfg.TwoFASetupFirst {
+		// an application that wires the second-factor modules before it initialises the others
+		if err := setup2FA(); err != nil {
+			return nil, err
+		}
+	}
 	if err := ab.Init(cfg.Modules...); err != nil {
 		return nil, err
 	}
@@ -427,20 +456,8 @@ func New(cfg Cfg, salt string) (w *World, err error) {
 			return nil, err
 		}
 	}
-	for _, k := range cfg.TwoFA {
-		switch k {
-		case "totp":
-			if err := (&totp2fa.TOTP{Authboss: ab}).Setup(); err != nil {
-				return nil, err
-			}
-		case "sms":
-			if err := (&sms2fa.SMS{Authboss: ab, Sender: smsSender{w}}).Setup(); err != nil {
-				return nil, err
-			}
-		}
-	}
-	if len(cfg.TwoFA) > 0 {
-		if err := (&twofactor.Recovery{Authboss: ab}).Setup(); err != nil {
+	if !cfg.TwoFASetupFirst {
+		if err := setup2FA(); err != nil {
 			return nil, err
 		}
 	}
@@ -578,6 +595,22 @@ func (w *World) buildStack() http.Handler {
 	} else if w.Cfg.Has("remember") {
 		h = remember.Middleware(ab)(h)
 	}
+	if w.Cfg.AccessLog != "" {
+		// the application's access log / data injector, first thing after the client state is loaded: it
+		// resolves the visitor through the library and carries on whatever the answer is. Its storage
+		// reads are the application's own business: not part of the request's fault/interleaving plan.
+		inner := h
+		h = http.HandlerFunc(func(rw http.ResponseWriter, r *http.Request) {
+			w.quiet = true
+			if w.Cfg.AccessLog == "load" {
+				ab.LoadCurrentUser(&r)
+			} else {
+				ab.CurrentUser(r)
+			}
+			w.quiet = false
+			inner.ServeHTTP(rw, r)
+		})
+	}
 	return ab.LoadClientStateMiddleware(h)
 }
 
@@ -603,6 +636,9 @@ func (w *World) SetNow(t time.Time) {
 func (w *World) P(route string) string { return w.Cfg.Mount + route }
 
 func (w *World) backend(op, arg string, write bool) error {
+	if w.quiet {
+		return nil
+	}
 	w.seq++
 	c := Call{Seq: w.seq, Op: op, Arg: arg, Write: write}
 	var err error
